@@ -161,6 +161,10 @@ func c02Stanza(g G, kind string, i int, compNS bool) string {
 		if g.Bool("xmlns-to") {
 			attrs += " xmlns:to='urn:example:to' xmlns:id='urn:example:id'"
 		}
+		if g.Bool("xml-id") {
+			// the xml: namespace is a namespace like any other (xml:id is a W3C recommendation)
+			attrs += " xml:id='zz9' xml:to='evil@example' xml:type='error' xml:from='nobody'"
+		}
 	}
 	nsa := ""
 	if g.Pct("explicitns", 20) {
@@ -282,6 +286,12 @@ func c02Features(g G) string {
 		"<ver xmlns='urn:xmpp:features:rosterver'/>",
 		"<register xmlns='http://jabber.org/features/iq-register'/>",
 		"<csi xmlns='urn:xmpp:csi:0'/>",
+		// known features with extension content, down to a descendant called like the feature itself
+		"<starttls xmlns='" + nsTLS + "'><required/><policy xmlns='urn:example:policy'><starttls xmlns='" + nsTLS + "'/></policy></starttls>",
+		"<bind xmlns='" + nsBind + "'><x xmlns='urn:example:ext'><bind xmlns='" + nsBind + "'/></x></bind>",
+		"<sm xmlns='" + nsSM + "'><x xmlns='urn:example:ext'><sm xmlns='" + nsSM + "'/></x></sm>",
+		"<mechanisms xmlns='" + nsSASL + "'><mechanism>PLAIN</mechanism><hostname xmlns='urn:xmpp:domain-based-name:1'>sim.example</hostname></mechanisms>",
+		"<session xmlns='urn:ietf:params:xml:ns:xmpp-session'><x xmlns='urn:example:ext'><session xmlns='urn:ietf:params:xml:ns:xmpp-session'/></x></session>",
 	}
 	if g.Pct("features-classic", 30) {
 		return "<stream:features><starttls xmlns='" + nsTLS + "'><required/></starttls><mechanisms xmlns='" + nsSASL + "'><mechanism>PLAIN</mechanism></mechanisms><bind xmlns='" + nsBind + "'/><sm xmlns='" + nsSM + "'/>" + c02Tree(g, 2, "unknown:feature") + "</stream:features>"
